@@ -25,19 +25,22 @@ func vGenOrdLoc(name string, L int, rich bool) Location {
 	return vGenOrdForm(name, L, vChoice(name+".f", n))
 }
 
-//verif:harness prop=C19 quick=2 thorough=16 timeout=1500
-//verif:bounds LocationLess on triples of locations: quick atoms (4 kinds) plain or complemented, thorough additionally join/order of two ranged/point parts (one shard per form of the first two locations); coordinates symbolic in [0,2^40]
+//verif:harness prop=C19 quick=4 thorough=16 timeout=1500
+//verif:bounds LocationLess on triples of locations: quick atoms (4 kinds) plain or complemented and a join of two ranged/point parts as first or second operand, thorough additionally join/order of two ranged/point parts (one shard per form of the first two locations); coordinates symbolic in [0,2^40]
 func VH_C19_locless_order() {
 	L := vIntIn("L", 1, vCap)
 	rich := vTier() == 1
-	sh := vShard(2 + 14*vTier())
+	sh := vShard(4 + 12*vTier())
 	var a, b Location
 	if rich {
 		a = vGenOrdForm("a", L, sh/4)
 		b = vGenOrdForm("b", L, sh%4)
-	} else {
-		a = vGenOrdForm("a", L, sh)
+	} else if sh < 3 {
+		a = vGenOrdForm("a", L, sh) // atom | complemented atom | join of two
 		b = vGenOrdLoc("b", L, false)
+	} else {
+		a = vGenOrdForm("a", L, 0)
+		b = vGenOrdForm("b", L, 2) // a multi-part right operand
 	}
 	c := vGenOrdLoc("c", L, rich)
 	vCover("triple")
@@ -201,7 +204,7 @@ func VH_C19_filters() {
 func vRefSelector(sel string, f Feature, match func(re, v string) bool) bool {
 	pieces := []string{""}
 	for i := 0; i < len(sel); i++ {
-		if sel[i] == '/' {
+		if sel[i] == '/' && (i == 0 || sel[i-1] != '\\') { // `\/` is a slash inside a regexp, not a separator
 			pieces = append(pieces, "")
 		} else {
 			pieces[len(pieces)-1] += string(sel[i])
@@ -243,8 +246,8 @@ func vRefSelector(sel string, f Feature, match func(re, v string) bool) bool {
 	return ok
 }
 
-//verif:harness prop=C19 quick=4 thorough=8 merge=concrete
-//verif:bounds Selector on a fixed list of selector strings assembled from key {a,b,""}, clause names {n,m,""}, regexps {x,""}; one feature with symbolic one-letter key, two qualifiers with symbolic one-letter names (possibly equal) and 1-2 symbolic one-letter values each
+//verif:harness prop=C19 quick=5 thorough=10 merge=concrete
+//verif:bounds Selector on a fixed list of selector strings assembled from key {a,b,""}, clause names {n,m,""}, regexps {x,""}, plus a list with escapes and classes (\\d \\/ \\w \\s . [0-9]) on concrete values; one feature with symbolic one-letter key, two qualifiers with symbolic one-letter names over {m,n,x} (possibly equal, as one multi-valued entry or as two entries with the same name; x is also a value letter) and 1-2 symbolic one-letter values each
 //verif:assume regexp verdicts on symbolic values are an uninterpreted predicate of (pattern, value), shared by the code and the reference
 func VH_C19_selector() {
 	sels := [][]string{
@@ -252,20 +255,35 @@ func VH_C19_selector() {
 		{"a/n", "/n=x", "a/n=x", "/=x", "a/=x"},
 		{"/n/m", "/n=x/m", "a/n=x/m=x", "/n=", "a//n"},
 		{"/n=x/=x", "b/m=x", "/=", "//", "/m/n=x"},
+		// regexps with escapes and classes, on concrete values (decided by the real regexp package)
+		{`/n=x\d`, `/m=1\/2`, `/=\wy`, `a/n=^x\d$/m=\/`, `/n=x\s`, `/=x.`, `/m=[0-9]\/`},
 	}
-	sh := vShard(4 + 4*vTier())
-	list := sels[sh%4]
+	sh := vShard(5 + 5*vTier())
+	list := sels[sh%5]
 	key := string(vBytesIn("key", 1, 'a', 'b'))
-	n1 := string(vBytesIn("n1", 1, 'm', 'n'))
-	n2 := string(vBytesIn("n2", 1, 'm', 'n'))
+	// names and values share the letter x: a clause on values must not be satisfied by a name
+	n1 := string([]byte{"mnx"[vIntIn("n1", 0, 2)]})
+	n2 := string([]byte{"mnx"[vIntIn("n2", 0, 2)]})
 	v1 := string(vBytesIn("v1", 1, 'x', 'y'))
 	v2 := string(vBytesIn("v2", 1, 'x', 'y'))
 	props := Props{}
 	props.Add(n1, v1)
-	if sh >= 4 {
+	if sh >= 5 {
 		props.Add(n1, string(vBytesIn("v1b", 1, 'x', 'y'))) // a multi-valued qualifier
 	}
-	props.Add(n2, v2) // same name as n1: the value is added to that qualifier
+	if vBool("literal") {
+		// a hand-built table may repeat a name in two entries instead of one multi-valued entry
+		props = append(props, []string{n2, v2})
+	} else {
+		props.Add(n2, v2) // same name as n1: the value is added to that qualifier
+	}
+	if sh%5 == 4 {
+		key = "a"
+		props = Props{[]string{"n", "x1"}, []string{"m", "1/2"}}
+		if sh >= 5 {
+			props = Props{[]string{"n", "x1", "zy"}, []string{"m", "x 2"}}
+		}
+	}
 	f := Feature{key, Range(0, 1), props}
 	match := func(re, v string) bool {
 		r, err := regexpCompileForHarness(re)
